@@ -78,10 +78,11 @@ var _ = pr.AutoF
 //@   requires b != nil && b.MarginTop != nil
 //@   ensures result == b.PositionY + pr.VV(b.MarginTop)
 
+// whether a box belongs to a box class depends only on the class and on the dynamic type of the box
 //@ func (BoxType).IsInstance
-//@   props C17 C16
+//@   props C17 C10
 //@   nopanic
-//@   pure
+//@   pure refs
 
 // the same accessor through any of the box interfaces of this package
 //@ func iface (boxes.*).Box
